@@ -69,8 +69,9 @@ class C07(Prop):
                 s.append([None, T0 + t, d, rng.choice([LA, LA, LB])])
             pt = rng.choice([0, 0.001, 0.5, 1, 2.5, 10])
             oth = [[None, e[1], e[2], LB] for e in rng.sample(s, min(3, len(s)))]
+            one = rng.random() < 0.4
             for b in storelib.BACKENDS:
-                out.append(("random-stream", {"backend": b, "pt": pt, "stream": s, "other": oth}))
+                out.append(("random-stream", {"backend": b, "pt": pt, "stream": s, "other": oth, "one_dict": one}))
         # the bucket id was used, deleted and re-created before the stream arrives; and streams that begin at the epoch
         for s_ in grid[:: max(1, len(grid) // ctx.pick(150, 2000))]:
             for b in storelib.BACKENDS:
@@ -170,6 +171,7 @@ class C07(Prop):
                     return {"final": [], "ids": [], "other_same": False, "steps": [], "reduce": [],
                             "twin": "a bucket created in another MemoryStorage object shows up in this one"}
             bucket = ds["hb"]
+            state = {}
             steps = []
             other_extra = []
             rng_data = lambda k: [LA, LB][k % 2]
@@ -197,6 +199,13 @@ class C07(Prop):
                     except Exception:
                         pass
                 heartbeat = mk_event(hb)
+                if case.get("one_dict"):
+                    # the watcher keeps ONE data dict, refills it in place and wraps it in a fresh Event for every heartbeat
+                    from aw_core.models import Event
+
+                    state.clear()
+                    state.update(json.loads(hb[3]) if hb[3] else {})
+                    heartbeat = Event(timestamp=heartbeat.timestamp, duration=heartbeat.duration, data=state)
                 if case.get("iso"):
                     from aw_core.models import Event
 
